@@ -200,7 +200,7 @@ def part_generated(ctx, cfgs):
                     if sd is not None:
                         prog, calls = sp, sc
                         shapes = sorted(order_tags(sp))
-                        if len(shapes) == 1:
+                        if len(shapes) == 1 and len(sp.exts) <= 2:
                             key = f"C02:gen:{'venom' if wrong[0].venom else 'legacy'}:{shapes[0]}"
                 except Exception as e:
                     ctx.log(f"shrink failed: {type(e).__name__}: {e}")
